@@ -13,7 +13,10 @@ from props import common
 VOCAB = ["+", "-", "*", "/", "**", "=", "for", "in", "1", "2.5", "3+2j", '"s"', "True", "1,2", "pi", "\n", "\t",
          "name", "version", "target", "type", "include", "sqrt", "sin", "log", ".", ",", ":", '"', "(", ")", "[", "]",
          "{", "}", "|", "array", "float", "complex", "int", "str", "bool", "q0", "MeasureX", "x", "G", "fock.sim",
-         ";", "$", "@", "&", "%", "~", "`", "?", "\\", "é", "#c"]
+         ";", "$", "@", "&", "%", "~", "`", "?", "\\", "é", "#c",
+         # invisible and exotic characters: none of them is white space or a line end of the grammar
+         "\x0b", "\x0c", "\x1c", "\x1d", "\x1e", "\x1f", "\x85", "\u00a0", "\u2028", "\u2029", "\u200b", "\ufeff",
+         "\u3000", "\x00", "\x7f"]
 
 
 def join_tokens(toks):
@@ -244,7 +247,7 @@ def run(ctx):
     for _ in range(ctx.n(300, 3000)):
         texts.append(("token-soup", join_tokens([ctx.rng.choice(VOCAB) for _ in range(ctx.rng.randrange(1, 12))])))
     for _ in range(ctx.n(200, 2000)):
-        texts.append(("char-soup", "".join(ctx.rng.choice("ab1 .,()[]{}|=+-*/\n\t\"#qjeE;$é0") for _ in range(ctx.rng.randrange(1, 25)))))
+        texts.append(("char-soup", "".join(ctx.rng.choice("ab1 .,()[]{}|=+-*/\n\t\"#qjeE;$é0\x0c\x85\u00a0\u2028\x1f") for _ in range(ctx.rng.randrange(1, 25)))))
     for _ in range(ctx.n(100, 1000)):
         head = "name a\nversion 1.0\n"
         texts.append(("soup-after-header", head + join_tokens([ctx.rng.choice(VOCAB) for _ in range(ctx.rng.randrange(1, 10))])))
